@@ -43,7 +43,7 @@ ASSUMPTIONS = ['ROM contents are tabulated at dump time (RomBlock._get_read_data
                'initial register/memory values and default_value are within range (legal_init)']
 
 
-def simulate(d, regmap, memmap, inputs, dflt, track=None):
+def simulate(d, regmap, memmap, inputs, dflt, track=None, reject_rng=None):
     """every wire on every cycle, read both ways the property names: SimulationTrace.trace for the traced wires
     and Simulation.inspect for all of them (track=None: wires_to_track='all'; else only the listed wires are
     traced and the others are seen through inspect alone).  A firing rtl_assert added by gen_designs.decorate
@@ -57,13 +57,33 @@ def simulate(d, regmap, memmap, inputs, dflt, track=None):
                            memory_value_map={m: dict(c) for m, c in memmap.items()},
                            default_value=dflt, block=block)
     seen, fired = [], 0
-    for step in inputs:
+    for t, step in enumerate(inputs):
+        if reject_rng is not None and t >= 1 and reject_rng.random() < 0.4:
+            # a refused call between two cycles is not a cycle: every wire must still show the last cycle's value
+            bad = {k: reject_rng.getrandbits(len(block.wirevector_by_name[k])) for k in step}
+            victim = reject_rng.choice(sorted(bad))
+            kind = reject_rng.choice(['missing', 'too-big', 'negative']) if len(bad) > 1 else 'too-big'
+            if kind == 'missing':
+                del bad[victim]
+            elif kind == 'too-big':
+                bad[victim] = 1 << len(block.wirevector_by_name[victim])
+            else:
+                bad[victim] = -1
+            try:
+                sim.step(bad)
+                return sim, tracer, seen, fired, 'illegal step (%s) accepted' % kind   # C15's business, not C01's
+            except pyrtl.PyrtlError:
+                now = {w.name: sim.inspect(w.name) for w in block.wirevector_set}
+                if now != seen[-1]:
+                    diff = sorted(k for k in now if now[k] != seen[-1][k])[:4]
+                    return sim, tracer, seen, fired, ('after a refused step(%s: %r) between cycles %d and %d, inspect shows '
+                                                      'values no cycle had on %s' % (kind, bad, t - 1, t, diff))
         try:
             sim.step(dict(step))
         except gen_designs.AssertFired:
             fired += 1
         seen.append({w.name: sim.inspect(w.name) for w in block.wirevector_set})
-    return sim, tracer, seen, fired
+    return sim, tracer, seen, fired, None
 
 
 def driver_op(block, wname):
@@ -172,7 +192,16 @@ def run(ctx):
             d, regmap, memmap, inputs, dflt = build_case(ctx, i, wide)
             ctx.count('stream', 'random')
         try:
-            sim, tracer, seen, fired = simulate(d, regmap, memmap, inputs, dflt, track)
+            rrng = ctx.sub_rng('reject', i) if (stream == 'directed' and d.inputs) else None
+            sim, tracer, seen, fired, refused = simulate(d, regmap, memmap, inputs, dflt, track, rrng)
+            if refused and 'accepted' in refused:
+                ctx.count('illegal-step-accepted', 1)
+                continue
+            if refused:
+                ctx.spec_violation('refused-step-leaves-state', 'design %s: %s' % (i, refused),
+                                   {'seed': ctx.seed, 'design': i, 'nets': [str(nn) for nn in d.block.logic],
+                                    'inputs': inputs})
+                continue
         except pyrtl.PyrtlError as e:
             ctx.spec_violation('api-built-design-rejected', 'Simulation rejected an API-built design: %s' % e,
                                {'seed': ctx.seed, 'design': i})
